@@ -1,0 +1,6 @@
+//go:build !verif
+
+package service
+
+// verifAt marks a linearization point for verification builds (tag verif); it is empty otherwise.
+func verifAt(_ *connection, _ string, _ ...any) {}
